@@ -2,11 +2,334 @@ package checks
 
 import (
 	"encoding/json"
+	"fmt"
+	"strings"
 
 	"verif/fw"
+	"verif/harness"
+	"verif/peer"
+	"verif/ref"
 )
 
-// client half of C20: filled in once the client harness exists.
-var runC20Client = func(c *fw.Ctx) {}
+// Client half of C20: response header lists from the mirrored vocabulary, sent
+// by the scripted server to the real client between two well-formed neighbours.
 
-var replayC20Client = func(raw json.RawMessage) (string, bool) { return "client half not built", false }
+type c20cItem struct {
+	Name  string
+	Apply func(fs []ref.Field) []ref.Field
+}
+
+func setStatus(v string) func([]ref.Field) []ref.Field {
+	return func(fs []ref.Field) []ref.Field {
+		out := append([]ref.Field{}, fs...)
+		for i := range out {
+			if out[i].Name == ":status" {
+				out[i].Value = v
+			}
+		}
+		return out
+	}
+}
+
+var c20cItems = []c20cItem{
+	{"drop :status", dropField(":status")},
+	{"duplicate :status", dupField(":status")},
+	{":status after regular field", func(fs []ref.Field) []ref.Field {
+		var p, out []ref.Field
+		for _, f := range fs {
+			if f.Name == ":status" {
+				p = append(p, f)
+			} else {
+				out = append(out, f)
+			}
+		}
+		return append(out, p...)
+	}},
+	{"second :status after regular field", addField(":status", "200")},
+	{":status 20", setStatus("20")},
+	{":status 2000", setStatus("2000")},
+	{":status abc", setStatus("abc")},
+	{":status 2x0", setStatus("2x0")},
+	{":status empty", setStatus("")},
+	{":status 404", setStatus("404")},
+	{":path in response", addPseudo(":path", "/")},
+	{":method in response", addPseudo(":method", "GET")},
+	{"unknown pseudo-header", addPseudo(":foo", "bar")},
+	{"upper-case name", addField("X-Upper", "v")},
+	{"connection", addField("connection", "close")},
+	{"keep-alive", addField("keep-alive", "timeout=5")},
+	{"proxy-connection", addField("proxy-connection", "keep-alive")},
+	{"transfer-encoding", addField("transfer-encoding", "chunked")},
+	{"upgrade", addField("upgrade", "h2c")},
+	{"content-length equal", addField("content-length", "=")},
+	{"content-length non-numeric", addField("content-length", "abc")},
+	{"content-length negative", addField("content-length", "-5")},
+	{"content-length overflowing", addField("content-length", "O")},
+	{"content-length empty", addField("content-length", "")},
+	{"repeated regular field", func(fs []ref.Field) []ref.Field {
+		return append(fs, ref.Field{Name: "x-rep", Value: "1"}, ref.Field{Name: "x-rep", Value: "2"})
+	}},
+	{"set-cookie twice", func(fs []ref.Field) []ref.Field {
+		return append(fs, ref.Field{Name: "set-cookie", Value: "a=1"}, ref.Field{Name: "set-cookie", Value: "b=2"})
+	}},
+	{"te: trailers", addField("te", "trailers")},
+}
+
+type c20cCase struct {
+	Items    []int  `json:"items"`
+	BodyLen  int    `json:"body_len"`
+	Trailers string `json:"trailers"` // none | valid | pseudo
+	Pos      int    `json:"pos"`      // which of the three concurrent requests is answered with the subject list
+	Split    int    `json:"split"`    // >0: block cut into HEADERS + CONTINUATION at this offset
+	Dynamic  bool   `json:"dynamic"`  // encode with incremental indexing (later responses refer to the subject's entries)
+}
+
+func c20cFields(cs c20cCase) (fields []ref.Field, names []string) {
+	fields = []ref.Field{{Name: ":status", Value: "200"}, {Name: "content-type", Value: "text/plain"}, {Name: "x-n", Value: "subject"}}
+	for _, i := range cs.Items {
+		fields = c20cItems[i].Apply(fields)
+		names = append(names, c20cItems[i].Name)
+	}
+	for i := range fields {
+		if fields[i].Name == "content-length" {
+			switch fields[i].Value {
+			case "=":
+				fields[i].Value = fmt.Sprint(cs.BodyLen)
+			case "O":
+				fields[i].Value = fmt.Sprint("1844674407370955161", 6+cs.BodyLen) // 2^64 + body length
+			}
+		}
+	}
+	return fields, names
+}
+
+func c20cRun(cs c20cCase) (*fw.Violation, *harness.Client) {
+	h := harness.NewClient(harness.ClientOpts{})
+	fields, names := c20cFields(cs)
+	mk := func(rule, detail string) *fw.Violation {
+		shape := "client " + strings.Join(names, " + ")
+		if len(names) == 0 {
+			shape = "client base response"
+		}
+		if cs.Trailers != "none" {
+			shape += " / trailers " + cs.Trailers
+		}
+		return &fw.Violation{Rule: rule, Shape: shape, Detail: detail + fmt.Sprintf("\n    response header list: %v body=%d trailers=%s\n    events: %s", fields, cs.BodyLen, cs.Trailers, strings.Join(h.EventLog, " ; ")), Replay: map[string]any{"family": "c20client", "case": cs}}
+	}
+	var calls []*harness.CCall
+	for i := 0; i < 3; i++ {
+		calls = append(calls, h.Go(harness.ReqSpec{Tag: fmt.Sprint("r", i), Path: fmt.Sprint("/r", i)}))
+	}
+	if len(h.Conns) != 1 || len(h.Conns[0].Order) != 3 {
+		return mk("harness", "three requests were not sent on one connection"), h
+	}
+	srv := h.Conns[0]
+	wf := ref.ResponseWellFormed(fields)
+	trailerBad := cs.Trailers == "pseudo"
+	body := []byte("hello")[:cs.BodyLen]
+	choice := func(int) ref.EncChoice { return ref.EncChoice{Rep: ref.RepWithout} }
+	if cs.Dynamic {
+		choice = func(int) ref.EncChoice { return ref.EncChoice{Rep: ref.RepIncremental, NameIndex: true} }
+	}
+	answer := func(i int, subject bool) {
+		id := srv.Order[i]
+		if !subject {
+			fs := []ref.Field{{Name: ":status", Value: "200"}, {Name: "content-type", Value: "text/plain"}, {Name: "x-n", Value: fmt.Sprint("neighbour", i)}}
+			h.Send(0, srv.RespFrames(id, fs, choice, nil, [][]byte{[]byte(fmt.Sprint("body", i))}, -1)...)
+			return
+		}
+		var splits []int
+		if cs.Split > 0 {
+			splits = []int{cs.Split}
+		}
+		var chunks [][]byte
+		if cs.BodyLen > 0 || cs.Trailers != "none" {
+			chunks = [][]byte{body}
+		}
+		fr := srv.RespFrames(id, fields, choice, splits, chunks, -1)
+		if cs.Trailers != "none" {
+			// move END_STREAM from the last DATA frame to a trailers block
+			last := &fr[len(fr)-1]
+			last.Flags &^= peer.FEndStream
+			tf := []ref.Field{{Name: "x-trailer", Value: "t"}}
+			if trailerBad {
+				tf = []ref.Field{{Name: ":status", Value: "200"}, {Name: "x-trailer", Value: "t"}}
+			}
+			var blk []byte
+			for _, f := range tf {
+				blk = ref.EncodeField(blk, srv.Enc.T, f, ref.EncChoice{Rep: ref.RepWithout})
+			}
+			fr = append(fr, peer.Headers(id, blk, peer.HeadersOpt{EndStream: true, EndHeaders: true, Pad: -1}))
+		}
+		h.Send(0, fr...)
+	}
+	// answer in request order: the subject in position Pos
+	for i := 0; i < 3; i++ {
+		answer(i, i == cs.Pos)
+	}
+	subj := calls[cs.Pos]
+	sid := srv.Order[cs.Pos]
+	if len(srv.GoAways) > 0 || srv.C.Closed() {
+		return mk("connection-dropped", fmt.Sprintf("a response (%s) on one stream made the client end the whole connection (GOAWAY %v, closed=%v): the other requests fail with it", orWF(wf), srv.GoAways, srv.C.Closed())), h
+	}
+	for i, c := range calls {
+		if i == cs.Pos {
+			continue
+		}
+		want := fmt.Sprint("body", i)
+		if !c.Done || c.Err != nil || c.Status != 200 || string(c.Body) != want {
+			return mk("neighbour-disturbed", fmt.Sprintf("neighbour request r%d (stream %d): done=%v err=%v status=%d body=%q, want 200 %q", i, srv.Order[i], c.Done, c.Err, c.Status, c.Body, want)), h
+		}
+		if got := hdrVal(c.Headers, "x-n"); got != fmt.Sprint("neighbour", i) {
+			return mk("neighbour-disturbed", fmt.Sprintf("neighbour request r%d got x-n=%q", i, got)), h
+		}
+	}
+	if !subj.Done {
+		return mk("request-never-resolved", fmt.Sprintf("the request answered with the %s response is still pending after the complete response", orWF(wf))), h
+	}
+	// a content-length that does not fit any integer is numeric in form but can
+	// describe no body: delivering or refusing that response are both defensible
+	for _, f := range fields {
+		if f.Name == "content-length" && len(f.Value) > 19 && wf == "" && !trailerBad {
+			return nil, h
+		}
+	}
+	if wf == "" && !trailerBad {
+		if subj.Err != nil {
+			return mk("well-formed-response-refused", fmt.Sprintf("well-formed response refused: %v", subj.Err)), h
+		}
+		wantStatus := 0
+		fmt.Sscan(fields[0].Value, &wantStatus)
+		if subj.Status != wantStatus || string(subj.Body) != string(body) {
+			return mk("well-formed-response-altered", fmt.Sprintf("status %d body %q delivered, sent %d %q", subj.Status, subj.Body, wantStatus, body)), h
+		}
+		for _, f := range fields {
+			if strings.HasPrefix(f.Name, ":") || f.Name == "content-length" {
+				continue
+			}
+			if !hasKV(subj.Headers, f.Name, f.Value) {
+				return mk("well-formed-response-altered", fmt.Sprintf("field %s: %s was sent, the caller sees %v", f.Name, f.Value, subj.Headers)), h
+			}
+		}
+		if len(srv.Streams[sid].Rst) > 0 {
+			return mk("well-formed-response-refused", fmt.Sprintf("RST_STREAM(%v) sent for a well-formed response", srv.Streams[sid].Rst)), h
+		}
+		return nil, h
+	}
+	// malformed: that request alone fails
+	if subj.Err == nil {
+		what := wf
+		if what == "" {
+			what = "pseudo-header in trailers"
+		}
+		return mk("malformed-response-delivered", fmt.Sprintf("malformed response (%s) delivered to the caller: status %d body %q", what, subj.Status, subj.Body)), h
+	}
+	return nil, h
+}
+
+func hdrVal(h [][2]string, k string) string {
+	for _, kv := range h {
+		if kv[0] == k {
+			return kv[1]
+		}
+	}
+	return ""
+}
+
+func hasKV(h [][2]string, k, v string) bool {
+	for _, kv := range h {
+		if kv[0] == k && kv[1] == v {
+			return true
+		}
+	}
+	return false
+}
+
+func init() {
+	runC20Client = func(c *fw.Ctx) {
+		thorough := c.Tier == "thorough"
+		maxItems := 2
+		if thorough {
+			maxItems = 3
+		}
+		var subsets [][]int
+		var rec func(start int, cur []int)
+		rec = func(start int, cur []int) {
+			subsets = append(subsets, append([]int{}, cur...))
+			if len(cur) == maxItems {
+				return
+			}
+			for i := start; i < len(c20cItems); i++ {
+				rec(i+1, append(cur, i))
+			}
+		}
+		rec(0, nil)
+		c.Bound["client_response_lists"] = len(subsets)
+		var item int64 = 1 << 40
+		do := func(cs c20cCase) {
+			if item++; !c.Mine(item) {
+				return
+			}
+			if c.Expired("C20 client") {
+				return
+			}
+			v, h := c20cRun(cs)
+			js, _ := json.Marshal(cs)
+			c.Eval(nt(len(cs.Items) > 0 || cs.Trailers != "none", append([]byte("client"), js...)))
+			c.AddTransitions(int64(h.Events))
+			c.AddTraces(1)
+			c.State(fw.Hash("client", h.Digest()))
+			if v != nil {
+				c.Violate(*v)
+				c.Outcome("client:" + v.Rule)
+			} else {
+				fields, _ := c20cFields(cs)
+				c.Outcome("client ok:" + orWF(ref.ResponseWellFormed(fields)))
+			}
+			h.Close()
+		}
+		for _, sub := range subsets {
+			for _, bl := range []int{0, 5} {
+				for _, tr := range []string{"none", "valid", "pseudo"} {
+					for pos := 0; pos < 3; pos++ {
+						if !thorough && len(sub) == 2 && pos != 1 {
+							continue
+						}
+						do(c20cCase{Items: sub, BodyLen: bl, Trailers: tr, Pos: pos})
+					}
+				}
+			}
+		}
+		// every single item: block cut at every offset, and encoded through the dynamic table
+		for it := -1; it < len(c20cItems); it++ {
+			var items []int
+			if it >= 0 {
+				items = []int{it}
+			}
+			fields, _ := c20cFields(c20cCase{Items: items, BodyLen: 5})
+			n := len(staticBlock(fields))
+			for off := 1; off < n; off++ {
+				do(c20cCase{Items: items, BodyLen: 5, Trailers: "none", Pos: 1, Split: off})
+			}
+			for pos := 0; pos < 3; pos++ {
+				do(c20cCase{Items: items, BodyLen: 5, Trailers: "none", Pos: pos, Dynamic: true})
+				do(c20cCase{Items: items, BodyLen: 0, Trailers: "valid", Pos: pos, Dynamic: true})
+			}
+		}
+		c.Family("client")
+	}
+	replayC20Client = func(raw json.RawMessage) (string, bool) {
+		var cs c20cCase
+		json.Unmarshal(raw, &cs)
+		v, h := c20cRun(cs)
+		defer h.Close()
+		if v != nil {
+			return v.Rule + " [" + v.Shape + "]: " + v.Detail, true
+		}
+		return "verdict matches RFC 7540 8.1.2.4: " + strings.Join(h.EventLog, " ; "), false
+	}
+}
+
+var runC20Client func(c *fw.Ctx)
+
+var replayC20Client func(raw json.RawMessage) (string, bool)
